@@ -126,52 +126,105 @@ deriving Repr
 
 def textEv (A : CAtoms) (i : Nat) (d : String) : BEv := .addText i (d == "") (A.blank i) (A.words i)
 
+/-- tests 1–5 of `visitElementNodeHandler`: not visible, social/sharing block, byline,
+unlikely candidate (only in skip-unlikelies mode), empty container -/
+def gateSkip (cfg : CCfg) (A : CAtoms) (anc : List String)
+    (id : Nat) (tag : String) (attrs : List Attr) (kids : List Node) : Bool :=
+  !visible A id tag attrs
+  || (getAttr attrs "class" == "sharing" || getAttr attrs "class" == "socialArea" || getAttr attrs "data-component" == "share")
+  || A.byline id
+  || (cfg.skipUnlikely && ((A.rxUnlikely id && !A.rxMaybe id && !anc.contains "table" && tag != "body" && tag != "a")
+                           || Gen.unlikelyRoles.contains (getAttr attrs "role")))
+  || (emptyContainerTag tag && withoutContent A (.elem id tag attrs kids))
+
+/-- the text child of a `javascript:` anchor that the converter turns into plain text -/
+def jsAnchorText (hasParent : Bool) (tag : String) (attrs : List Attr) (kids : List Node) : Option (Nat × String) :=
+  if tag == "a" && strHasPrefix (getAttr attrs "href") "javascript:" && hasParent then
+    match kids with
+    | [.text ti td] => some (ti, td)
+    | _ => none
+  else none
+
+/-- the `switch tagName` of `visitElementNodeHandler` and the final `StartNode`; tag
+placeholders are added by `withTags` -/
+def tagSwitch (A : CAtoms) (anc : List String) (hasParent : Bool)
+    (id : Nat) (tag : String) (attrs : List Attr) (kids : List Node) : Visit :=
+  if tag == "a" && strContains (getAttr attrs "href") "action=edit&section=" then .emit []
+  else
+    match jsAnchorText hasParent tag attrs kids with
+    | some (ti, td) => .emit [textEv A ti td]
+    | none =>
+      if tag == "span" && getAttr attrs "class" == "mw-editsection" then .emit []
+      else if tag == "font" then .descend [.startNode (actionFor A anc id "span" [])] [.endNode] "span"
+      else if tag == "br" then .emit [.addBr id]
+      else if tag == "table" && A.dataTable id then .emit [.addTable id]
+      else if tag == "video" then .emit [.addEmbed .video id]
+      else if skipFlushTag tag then .emit [.skipNode]
+      else if skipSilentTag tag then .emit []
+      else .descend [.startNode (actionFor A anc id tag attrs)] [.endNode] tag
+
+/-- the start placeholder goes out before the tag switch; the end placeholder only when the
+element is walked (exit handler) -/
+def withTags (tag : String) : Visit → Visit
+  | .skip => .skip
+  | .emit evs => .emit ((if nestableTag tag then [BEv.addTag tag true] else []) ++ evs)
+  | .descend pre post t =>
+    .descend ((if nestableTag tag then [BEv.addTag tag true] else []) ++ pre)
+             ((if nestableTag tag then [BEv.addTag tag false] else []) ++ post) t
+
 /-- `visitElementNodeHandler` for an element that has a parent iff `hasParent` -/
 def visitElem (cfg : CCfg) (A : CAtoms) (anc : List String) (hasParent : Bool)
     (id : Nat) (tag : String) (attrs : List Attr) (kids : List Node) : Visit :=
-  let cls := getAttr attrs "class"
-  if !visible A id tag attrs then .skip
-  else if cls == "sharing" || cls == "socialArea" || getAttr attrs "data-component" == "share" then .skip
-  else if A.byline id then .skip
-  else if cfg.skipUnlikely && ((A.rxUnlikely id && !A.rxMaybe id && !anc.contains "table" && tag != "body" && tag != "a")
-                               || Gen.unlikelyRoles.contains (getAttr attrs "role")) then .skip
-  else if emptyContainerTag tag && withoutContent A (.elem id tag attrs kids) then .skip
+  if gateSkip cfg A anc id tag attrs kids then .skip
   else
     match (if embedTag tag then A.embed id else .none) with
     | .some k => .emit [.addEmbed k id]
-    | .none =>
-      let pre : List BEv := if nestableTag tag then [.addTag tag true] else []
-      let post : List BEv := (if nestableTag tag then [.addTag tag false] else []) ++ [.endNode]
-      let href := getAttr attrs "href"
-      if tag == "a" && strContains href "action=edit&section=" then .emit pre
-      else if tag == "a" && strHasPrefix href "javascript:" && hasParent &&
-              (match kids with | [.text _ _] => true | _ => false) then
-        match kids with
-        | [.text ti td] => .emit (pre ++ [textEv A ti td])
-        | _ => .skip
-      else if tag == "span" && cls == "mw-editsection" then .emit pre
-      else if tag == "font" then .descend (pre ++ [.startNode (actionFor A anc id "span" [])]) post "span"
-      else if tag == "br" then .emit (pre ++ [.addBr id])
-      else if tag == "table" && A.dataTable id then .emit (pre ++ [.addTable id])
-      else if tag == "video" then .emit (pre ++ [.addEmbed .video id])
-      else if skipFlushTag tag then .emit (pre ++ [.skipNode])
-      else if skipSilentTag tag then .emit pre
-      else .descend (pre ++ [.startNode (actionFor A anc id tag attrs)]) post tag
+    | .none => withTags tag (tagSwitch A anc hasParent id tag attrs kids)
+
+/-- the element visitor's signature: ancestors' tags, has-parent, id, tag, attributes, children -/
+abbrev Visitor := List String → Bool → Nat → String → List Attr → List Node → Visit
 
 mutual
-/-- `WalkNodes(clone, visit, exit)` with the converter's handlers -/
-def convertNode (cfg : CCfg) (A : CAtoms) (anc : List String) (hasParent : Bool) : Node → List BEv
-  | .text i d => [textEv A i d]
+/-- `domutil.WalkNodes(root, visit, exit)`: pre-order walk; the visitor decides per element
+whether the walk goes into the children (and which calls frame them) -/
+def walkNode (visit : Visitor) (txt : Nat → String → BEv) (anc : List String) (hasParent : Bool) : Node → List BEv
+  | .text i d => [txt i d]
   | .other _ _ => []
   | .elem i t attrs ks =>
-    match visitElem cfg A anc hasParent i t attrs ks with
+    match visit anc hasParent i t attrs ks with
     | .skip => []
     | .emit evs => evs
-    | .descend pre post t' => pre ++ convertKids cfg A (t' :: anc) ks ++ post
-def convertKids (cfg : CCfg) (A : CAtoms) (anc : List String) : List Node → List BEv
+    | .descend pre post t' => pre ++ walkKids visit txt (t' :: anc) ks ++ post
+def walkKids (visit : Visitor) (txt : Nat → String → BEv) (anc : List String) : List Node → List BEv
   | [] => []
-  | k :: ks => convertNode cfg A anc true k ++ convertKids cfg A anc ks
+  | k :: ks => walkNode visit txt anc true k ++ walkKids visit txt anc ks
 end
+
+/-- the walk with the converter's handlers -/
+def convertNode (cfg : CCfg) (A : CAtoms) (anc : List String) (hasParent : Bool) (n : Node) : List BEv :=
+  walkNode (visitElem cfg A) (textEv A) anc hasParent n
+def convertKids (cfg : CCfg) (A : CAtoms) (anc : List String) (ks : List Node) : List BEv :=
+  walkKids (visitElem cfg A) (textEv A) anc ks
+
+theorem convertNode_text (cfg : CCfg) (A : CAtoms) (anc : List String) (hp : Bool) (i : Nat) (d : String) :
+    convertNode cfg A anc hp (.text i d) = [textEv A i d] := by
+  unfold convertNode; rw [walkNode]
+theorem convertNode_other (cfg : CCfg) (A : CAtoms) (anc : List String) (hp : Bool) (i k : Nat) :
+    convertNode cfg A anc hp (.other i k) = [] := by
+  unfold convertNode; rw [walkNode]
+theorem convertNode_elem (cfg : CCfg) (A : CAtoms) (anc : List String) (hp : Bool)
+    (i : Nat) (t : String) (attrs : List Attr) (ks : List Node) :
+    convertNode cfg A anc hp (.elem i t attrs ks) =
+      match visitElem cfg A anc hp i t attrs ks with
+      | .skip => []
+      | .emit evs => evs
+      | .descend pre post t' => pre ++ convertKids cfg A (t' :: anc) ks ++ post := by
+  unfold convertNode convertKids; rw [walkNode]
+theorem convertKids_nil (cfg : CCfg) (A : CAtoms) (anc : List String) : convertKids cfg A anc [] = [] := by
+  unfold convertKids; rw [walkKids]
+theorem convertKids_cons (cfg : CCfg) (A : CAtoms) (anc : List String) (k : Node) (ks : List Node) :
+    convertKids cfg A anc (k :: ks) = convertNode cfg A anc true k ++ convertKids cfg A anc ks := by
+  unfold convertKids convertNode; rw [walkKids]
 
 /-- `DomConverter.Convert(root)` on a root whose ancestors have tags `anc` -/
 def convert (cfg : CCfg) (A : CAtoms) (anc : List String) (hasParent : Bool) (root : Node) : List BEv :=
